@@ -1,6 +1,7 @@
 import IOptProofs.ProcessFail
 import IOptProofs.ProcessEvents
 import IOptProofs.ProcessResume
+import IOptProofs.ProcessRefine
 /-!
 # An objective that raises during `Solve`, on every route to the failing evaluation
 
@@ -71,7 +72,7 @@ theorem fail_contained_from {p : Params α} {f g : Nat → List α → Option α
         solve p f refine ps =
           (refineStep refine
             { m := some pr.s, log := ps.log ++ firstMark ps i ++ endEach ids ++ [Event.exceptionPrinted],
-              evals := psi.evals, nLocal := ps.nLocal, calls := ps.calls + i + 1 }).appendLog
+              evals := psi.evals, nLocal := ps.nLocal, calls := ps.calls + i + 1, refined := ps.refined }).appendLog
           [Event.methodStop (stopCond p pr.s)] := by
   obtain ⟨K, psK, idsK, hpreG, hKn⟩ := solve_nTrials_from (p := p) (g := g) (refine := refine') ps
   rw [hKn] at hK
@@ -93,7 +94,8 @@ theorem fail_contained_from {p : Params α} {f g : Nat → List α → Option α
   refine ⟨psi, ids, s, pr, hpreg, hpref, hms, hpr, hst, hlog, fun refine => ?_⟩
   have hX : (solveLoop p f (p.itersLimit + 1) ps).1 =
       { m := some pr.s, log := ps.log ++ firstMark ps i ++ endEach ids ++ [Event.exceptionPrinted],
-        evals := psi.evals, nLocal := ps.nLocal, calls := ps.calls + i + 1 } := by
+        evals := psi.evals, nLocal := ps.nLocal, calls := ps.calls + i + 1, refined := ps.refined } := by
+    have hrf : psi.refined = ps.refined := iterN_ok_refined hpreg.run
     have hfuel : p.itersLimit + 1 = i + ((p.itersLimit - i) + 1) := by omega
     rw [hfuel, solveLoop_skip _ _ _ _ _ hpref, solveLoop_succ]
     have hst' : stopNow p (psi.appendLog (endEach ids)) = false := hst
@@ -101,7 +103,7 @@ theorem fail_contained_from {p : Params α} {f g : Nat → List α → Option α
     simp only [Bool.false_eq_true, if_false]
     rw [oneIteration_eq]
     simp only [PState.appendLog_m, PState.appendLog_calls, hms, hpr, hfail]
-    simp [PState.appendLog, hlog, c3, c6]
+    simp [PState.appendLog, hlog, c3, c6, hrf]
   rw [solve_eq, hX, (refineStep_fields (p := p) refine _).2.2.2.2.2.2.2.1]
   rfl
 
@@ -294,7 +296,9 @@ theorem fail_after_batches {p : Params α} {f g : Nat → List α → Option α}
   · rw [hB r]; exact ⟨b3, b2, b1⟩
   · rw [runOps_append]
     simp only [runOps, runOp]
-    rw [hB refine, hsolve refine, x4, b4, b2, ← hids', firstMark_of_some (b6 hj1), List.append_nil]
+    have hrf : (runOps p f (fun _ => none) (bs.map Op.iter) {}).refined = none := by
+      rw [(PState.core_eq_iff.1 b1).2.2.2.2]; exact iterN_ok_refined h0
+    rw [hB refine, hsolve refine, x4, b4, b2, hrf, ← hids', firstMark_of_some (b6 hj1), List.append_nil]
     have : bs.sum + (k - 1 - bs.sum) + 1 = k := by omega
     rw [this]
 
@@ -323,7 +327,8 @@ theorem fail_in_resumed_solve {p1 p2 : Params α} {f g : Nat → List α → Opt
         solve p2 f refine2 (solve p1 f refine1 {}) =
           (refineStep refine2
             { m := some pr.s, log := (solve p1 f refine1 {}).log ++ [Event.exceptionPrinted],
-              evals := psk.evals, nLocal := (solve p1 f refine1 {}).nLocal, calls := k }).appendLog
+              evals := psk.evals, nLocal := (solve p1 f refine1 {}).nLocal, calls := k,
+              refined := (solve p1 f refine1 {}).refined }).appendLog
           [Event.methodStop (stopCond p2 pr.s)] := by
   have h0c : ({} : PState α).calls = 0 := rfl
   have h0n : ({} : PState α).nTrials = 0 := rfl
@@ -380,7 +385,7 @@ theorem dgi_fail_from {p : Params α} {f g : Nat → List α → Option α} {ps 
       psi.m = some s ∧ prepare p s = .ok pr ∧ psi.log = ps.log ++ firstMark ps i ∧
       doGlobalIteration p f n ps saved =
         { s := { m := some pr.s, log := ps.log ++ firstMark ps i, evals := psi.evals, nLocal := ps.nLocal,
-                 calls := ps.calls + i + 1 },
+                 calls := ps.calls + i + 1, refined := ps.refined },
           raised := some .objective } := by
   rw [iterN_succ'] at hrun
   split at hrun
@@ -392,6 +397,7 @@ theorem dgi_fail_from {p : Params α} {f g : Nat → List α → Option α} {ps 
       have hfi : iterN p f i ps = .ok (psi, ids) := by
         rw [iterN_oracle_congr (f := f) (g := g) (fun j pt h1 h2 => (hg j pt h1 h2).symm)]; exact hgi
       obtain ⟨-, -, c3, -, -, c6, -⟩ := iterN_counters hgi
+      have hrf : psi.refined = ps.refined := iterN_ok_refined hgi
       have hmi : psi.m ≠ none := by
         rcases hm with hm | hm
         · exact (iterN_ok_some hm hgi).1
@@ -408,9 +414,9 @@ theorem dgi_fail_from {p : Params α} {f g : Nat → List α → Option α} {ps 
       rw [iterN, oneIteration_eq]
       simp only [hms, hpr, hfail]
       cases psi with
-      | mk m log evals nLocal calls =>
-        simp only at hlog c3 c6
-        simp [hlog, c3, c6]
+      | mk m log evals nLocal calls refined =>
+        simp only at hlog c3 c6 hrf
+        simp [hlog, c3, c6, hrf]
 
 /-- passes made after batches are passes of the canonical sequence from a fresh solver -/
 theorem canonical_of_batches {p : Params α} {g : Nat → List α → Option α} {r : PState α → Option (LocalResult α)}
@@ -502,8 +508,10 @@ theorem fail_dgi_after_batches {p : Params α} {f g : Nat → List α → Option
             simp only [iterN, Except.ok.injEq, Prod.mk.injEq] at h0
             rw [hm0, ← h0.1]
           · rw [if_neg (by omega)]; exact firstMark_of_some (b6 h)
+        have hrf : (runOps p f r (bs.map Op.iter) {}).refined = none := by
+          rw [(PState.core_eq_iff.1 b1).2.2.2.2]; exact iterN_ok_refined h0
         refine ⟨psk, s, pr, hrunk, by rw [x6]; exact hms, hpr, b3, b2, ?_⟩
-        rw [hdgi, x4, b4, b2, hfm]
+        rw [hdgi, x4, b4, b2, hfm, hrf]
         have : bs.sum + (k - 1 - bs.sum) + 1 = k := by omega
         rw [this]
       obtain ⟨psk, s, pr, hrunk, hmk, hpr, -, -, -⟩ := key (fun _ => none)
@@ -530,6 +538,52 @@ theorem fail_dgi_after_batches {p : Params α} {f g : Nat → List α → Option
         rw [hpr] at hpr2
         cases hpr2
         exact hd
+
+/-- the reported trial does not depend on the stored characteristics `R` -/
+theorem reportedId_congr_eraseR {ps ps' : PState α} {s s' : State α} (hr : ps'.refined = ps.refined)
+    (hi : s'.items.map Ctl.eraseR = s.items.map Ctl.eraseR) (hb : s'.best = s.best) :
+    reportedId ps' s' = reportedId ps s := by
+  unfold reportedId
+  rw [hr, hb]
+  cases ps.refined with
+  | none => rfl
+  | some r =>
+    simp only []
+    have h1 := findItem_eraseR hi r
+    have h2 := findItem_eraseR hi s.best
+    cases ha : findItem s'.items r with
+    | none =>
+      rw [ha] at h1
+      cases hb' : findItem s.items r with
+      | none => rfl
+      | some b => rw [hb'] at h1; simp at h1
+    | some a =>
+      rw [ha] at h1
+      cases hb' : findItem s.items r with
+      | none => rw [hb'] at h1; simp at h1
+      | some b =>
+        rw [hb'] at h1
+        simp only [Option.map_some, Option.some.injEq] at h1
+        have hab : a.hv = b.hv := by
+          show (Ctl.eraseR a).hv = (Ctl.eraseR b).hv
+          rw [h1]
+        cases hc : findItem s'.items s.best with
+        | none =>
+          rw [hc] at h2
+          cases hd : findItem s.items s.best with
+          | none => rfl
+          | some d => rw [hd] at h2; simp at h2
+        | some c =>
+          rw [hc] at h2
+          cases hd : findItem s.items s.best with
+          | none => rw [hd] at h2; simp at h2
+          | some d =>
+            rw [hd] at h2
+            simp only [Option.map_some, Option.some.injEq] at h2
+            have hcd : c.hv = d.hv := by
+              show (Ctl.eraseR c).hv = (Ctl.eraseR d).hv
+              rw [h2]
+            simp only [hab, hcd]
 
 end Proc
 end
